@@ -588,3 +588,75 @@ Proof.
   destruct (reopened_is_call_prefix_no_bulk lazy d0 t0 _ tr k Htr Hnb) as (h1 & rest & Hh & Hd).
   exists (length h1). rewrite Hd. rewrite (map_eq_app_firstn _ _ _ _ _ _ Hh) at 1. apply hist_live_std.
 Qed.
+
+(* ---- the eager store (enable_lazy_commit = False): every completed call is durable ---- *)
+
+(* does a script leave [durable = live], given whether that held before it? *)
+Definition settle (b : bool) (m : smicro) : bool :=
+  match m with
+  | SExec _ | SExecMany _ => false
+  | SCommit | SCondCommit _ => true
+  | SRead => b
+  end.
+
+Lemma eager_settled : forall tr s b,
+  (b = true -> durable s = live s) ->
+  fold_left settle (map fst tr) b = true ->
+  durable (cr_run false s tr) = live (cr_run false s tr).
+Proof.
+  induction tr as [|[m c] tr IH]; intros s b Hb Hf.
+  - cbn in Hf. apply Hb. exact Hf.
+  - cbn [map fst fold_left] in Hf. rewrite cr_run_cons. apply (IH _ (settle b m)); [|exact Hf].
+    unfold cr_step. cbn [fst snd]. destruct m; cbn [settle]; try discriminate; try reflexivity.
+    exact Hb.
+Qed.
+
+Lemma upserts_settled : forall b es, fold_left settle (upsert_script b es) true = true.
+Proof.
+  intros b es. induction es as [|e es IH]; [reflexivity|].
+  unfold upsert_script in *. cbn [flat_map]. rewrite fold_left_app.
+  destruct (eid e); cbn; exact IH.
+Qed.
+
+Lemma sscript_settled : forall c o, fold_left settle (sscript c o) true = true.
+Proof.
+  intros c o. destruct o as [o|b es k]; [destruct o|]; cbn [sscript].
+  - destruct (sql_insert_bucket c b m); reflexivity.
+  - destruct (negb _); reflexivity.
+  - reflexivity.
+  - reflexivity.
+  - reflexivity.
+  - destruct (sql_bucket_rowid c b); reflexivity.
+  - rewrite fold_left_app, upserts_settled. reflexivity.
+  - reflexivity.
+  - reflexivity.
+  - reflexivity.
+  - reflexivity.
+  - destruct (limit =? 0); reflexivity.
+  - reflexivity.
+  - rewrite fold_left_app, upserts_settled. reflexivity.
+Qed.
+
+Lemma hist_settled : forall h c, fold_left settle (hist_script c h) true = true.
+Proof.
+  induction h as [|o h IH]; intros c; [reflexivity|].
+  cbn [hist_script]. rewrite fold_left_app, sscript_settled. apply IH.
+Qed.
+
+Lemma eager_call_durable : forall s o tro,
+  durable s = live s -> map fst tro = sscript (live s) o ->
+  reopen (cr_run false s tro) = live (cr_run false s tro).
+Proof.
+  intros s o tro Hs Htro. apply (eager_settled tro s true); [intros _; exact Hs|].
+  rewrite Htro. apply sscript_settled.
+Qed.
+
+Lemma eager_history_durable : forall d0 t0 h tr,
+  map fst tr = hist_script d0 h ->
+  let s := cr_run false (cr_init d0 t0) tr in
+  reopen s = live s /\ live s = hist_live d0 h.
+Proof.
+  intros d0 t0 h tr Htr s. split.
+  - apply (eager_settled tr _ true); [intros _; reflexivity|]. rewrite Htr. apply hist_settled.
+  - unfold s. rewrite cr_run_live, Htr. apply live_after_hist_script.
+Qed.
